@@ -5,7 +5,8 @@ from ..nf import Rat, C
 from ..source import Unsupported, AnchorError
 from ..xlate import Interp, Frame, Obj, ListV, DictV, Raised, SumV, Elem, RankOrder, _RaisedExc
 from .rxnfix import set_public, get_public
-from .common import same, show, coeff_vector, attached_models, attached_sum, sel_opaque, sub
+from .common import same, show, coeff_vector, attached_models, attached_sum, sel_opaque, sub, opaque_obj, \
+    MIX_QUANTITIES
 
 NASA = 'pmutt.empirical.nasa'
 SHO = 'pmutt.empirical.shomate'
@@ -19,28 +20,36 @@ DIM = {'Cp': ('CpoR', 'kJ/mol/K', False), 'H': ('HoRT', 'kJ/mol', True), 'S': ('
 PHASES = (None, 'S', 'G')
 
 
-def species_obj(I, repo, kind, misc, phase=None, add=None):
+def species_obj(I, repo, kind, misc, phase=None, add=None, tag='', nseg=1, more=None):
     """a species built by its PUBLIC constructor (every attribute has the value the constructor gives it, the defaults
-    included); returns the object and the coefficient vectors the rule handed over"""
+    included); returns the object and the coefficient vectors the rule handed over.  tag: a second species of the same
+    interpreter (other name, other coefficients); nseg=2: a NASA-9 species of two segments that meet at sp.T_mid;
+    more: further documented constructor arguments (model=, cat_site=, n_sites=)"""
     D = I.D
     fr = Frame(I, repo.module('pmutt'), {}, None, None)
-    kw = {'name': 'sp', 'phase': phase, 'misc_models': misc}
+    kw = {'name': 'sp' + tag, 'phase': phase, 'misc_models': misc}
     if add is not None:
         kw['add_gas_P_adj'] = add
+    kw.update(more or {})
     if kind == 'Nasa':
-        co = {'lo': coeff_vector(I, 'lo', 7), 'hi': coeff_vector(I, 'hi', 7)}
+        co = {'lo': coeff_vector(I, tag + 'lo', 7), 'hi': coeff_vector(I, tag + 'hi', 7)}
         kw.update({'T_low': D.sym('sp.T_low'), 'T_mid': D.sym('sp.T_mid'), 'T_high': D.sym('sp.T_high'),
                    'a_low': ListV(list(co['lo'].items)), 'a_high': ListV(list(co['hi'].items))})
         qual = NASA + '.Nasa'
     elif kind == 'Nasa9':
-        co = {'s': coeff_vector(I, 's', 9)}
-        seg = fr.apply(repo.cls(NASA + '.SingleNasa9'), [],
-                       {'T_low': D.sym('seg0.T_low'), 'T_high': D.sym('seg0.T_high'),
-                        'a': ListV(list(co['s'].items))}, None)
-        kw['nasas'] = ListV([seg])
+        co = {'lo': coeff_vector(I, tag + 's', 9)}
+        if nseg == 1:
+            bounds = [('seg0.T_low', 'seg0.T_high')]
+        else:
+            co['hi'] = coeff_vector(I, tag + 's1', 9)
+            bounds = [('seg0.T_low', 'sp.T_mid'), ('sp.T_mid', 'seg1.T_high')]
+        segs = [fr.apply(repo.cls(NASA + '.SingleNasa9'), [],
+                         {'T_low': D.sym(lo_), 'T_high': D.sym(hi_), 'a': ListV(list(co[c_].items))}, None)
+                for (lo_, hi_), c_ in zip(bounds, ('lo', 'hi'))]
+        kw['nasas'] = ListV(segs)
         qual = NASA + '.Nasa9'
     else:
-        co = {'a': coeff_vector(I, 'a', 8)}
+        co = {'a': coeff_vector(I, tag + 'a', 8)}
         kw.update({'T_low': D.sym('sp.T_low'), 'T_high': D.sym('sp.T_high'), 'a': ListV(list(co['a'].items)),
                    'units': 'J/mol/K'})
         qual = SHO + '.Shomate'
@@ -62,21 +71,29 @@ def bare(I, repo, kind, co, q, T, hi=False):
     return memo[k_]
 
 
-def _bare(I, repo, kind, co, q, T, hi):
-    if kind == 'Nasa':
-        m = repo.module(NASA)
-        f = lambda qq: I.call_function(m, m.functions['get_nasa_' + qq], [], {'a': co['hi' if hi else 'lo'], 'T': T})
-    elif kind == 'Nasa9':
-        m = repo.module(NASA)
-        f = lambda qq: I.call_function(m, m.functions['get_nasa9_' + qq], [], {'a': co['s'], 'T': T})
-    else:
-        m = repo.module(SHO)
+def module_function(repo, modname, fname):
+    """the function a user reaches as <modname>.<fname>: defined in that module or imported into it"""
+    m = repo.module(modname)
+    r = repo.lookup(m, fname)
+    if not (isinstance(r, tuple) and r[0] == 'function'):
+        raise AnchorError('%s.%s is not a function of the package' % (modname, fname))
+    return r[1], r[2]
 
+
+def _bare(I, repo, kind, co, q, T, hi):
+    def call(modname, fname, kw):
+        m, fn = module_function(repo, modname, fname)
+        return I.call_function(m, fn, [], kw)
+    if kind == 'Nasa':
+        f = lambda qq: call(NASA, 'get_nasa_' + qq, {'a': co['hi' if hi else 'lo'], 'T': T})
+    elif kind == 'Nasa9':
+        # a species of one segment answers every temperature from it
+        f = lambda qq: call(NASA, 'get_nasa9_' + qq, {'a': co['hi' if hi and 'hi' in co else 'lo'], 'T': T})
+    else:
         def f(qq):
             arr = ListV([T])
             arr.is_array = True
-            r = I.call_function(m, m.functions['get_shomate_' + qq], [], {'a': co['a'], 'T': arr,
-                                                                         'units': 'J/mol/K'})
+            r = call(SHO, 'get_shomate_' + qq, {'a': co['a'], 'T': arr, 'units': 'J/mol/K'})
             return r.items[0]
     if q == 'GoRT':
         return f('HoRT') - f('SoR')
@@ -84,11 +101,28 @@ def _bare(I, repo, kind, co, q, T, hi):
 
 
 def ranks(n):
-    r = {'sp.T_low': 1, 'sp.T_mid': 50, 'sp.T_high': 90, 'seg0.T_low': 1, 'seg0.T_high': 90, 'T': 10,
-         'Tu': 60, 'Td': 5}
+    # Tn / Tx: below and above the fitted range
+    r = {'sp.T_low': 1, 'sp.T_mid': 50, 'sp.T_high': 90, 'seg0.T_low': 1, 'seg0.T_high': 90, 'seg1.T_high': 90, 'T': 10,
+         'Tu': 60, 'Td': 5, 'Tn': Fr(1, 2), 'Tx': 95}
     for i in range(n):
         r['T%d' % i] = 10 + i
     return r
+
+
+def fitted_model(I):
+    """what from_model leaves in the species' documented `model` attribute: the model the polynomial was fitted to, an
+    arbitrary object with the getter interface (uninterpreted; every answer names the getter and its arguments)"""
+    m = opaque_obj(I, 'fitted', {g: ('T',) for g in MIX_QUANTITIES})
+    m.attrs.update({'name': 'sp', 'elements': None})
+    return m
+
+
+def ask(I, o, name, kw):
+    """o.name(**kw): the value, or the exception it raises"""
+    try:
+        return I.call_method(o, name, [], kw)
+    except _RaisedExc as e:
+        return e.raised
 
 
 def summation(run, repo, max_len, thorough=False):
@@ -109,7 +143,16 @@ def summation(run, repo, max_len, thorough=False):
             models = attached_models(I, k, params=('T', 'P', 'x'))
             # no models: not given at all (the default) / an empty list
             misc = ListV(list(models.items)) if k or phase == 'S' else None
-            o, co = species_obj(I, repo, kind, misc, phase)
+            # the instance with one attached model: the documented constructor arguments that have nothing to do with
+            # the value are given too (the model the species was fitted to, as from_model stores it; a catalyst site;
+            # two sites) - every other instance leaves them at their defaults
+            more = None
+            if k == 1:
+                more = {'model': fitted_model(I), 'n_sites': C(2)}
+                if kind == 'Nasa':
+                    more['cat_site'] = Obj('site')
+            # a NASA-9 species of two segments that meet at sp.T_mid (one segment: real_models, numeric_pressure)
+            o, co = species_obj(I, repo, kind, misc, phase, nseg=2, more=more)
             own = phase == 'G'          # the constructor attached a pressure adjustment of its own
             owner, fn = repo.find_method(o.ci, 'get_' + q)
             run.fn(owner.qual + '.get_' + q)
@@ -191,6 +234,57 @@ def summation(run, repo, max_len, thorough=False):
                           'element, %sthe bare polynomial of that element\'s range plus the sum over every attached '
                           'model%s at that element\'s temperature' % (show(got, 260), dimtxt, owntxt), owner.module, fn)
                 n += 2
+                # a temperature ON the bound two ranges share (T_mid of a NASA-7 species, the common bound of two NASA-9
+                # segments), as a scalar and twice in an array between one value of each range: the polynomial of
+                # either range is accepted there (the fit is continuous), the attached models count once
+                Tb = D.sym('sp.T_mid')
+
+                def at_bound(g):
+                    g = flat(g)
+                    return same(g, want_at(Tb)) or (kind != 'Shomate' and same(g, want_at(Tb, True)))
+                got = ask(I, o, 'get_' + q, dict({'T': Tb, 'P': P, 'x': x}, **extra))
+                run.check(at_bound(got), 'BRANCH-TWIN.scalar', con, 'scalar T on the bound of two ranges' + tag,
+                          'value at the temperature two ranges share is %s, expected %sthe bare polynomial of one of the '
+                          'two ranges plus the sum over every attached model, once, at the same T and conditions%s'
+                          % (show(got, 200), dimtxt, owntxt), owner.module, fn)
+                arr = ListV([Td, Tb, Tu, Tb])
+                arr.is_array = True
+                got = ask(I, o, 'get_' + q, dict({'T': arr, 'P': P, 'x': x}, **extra))
+                ok = isinstance(got, ListV) and len(got) == 4 and \
+                    same(flat(got.items[0]), want_at(Td)) and same(flat(got.items[2]), want_at(Tu, True)) and \
+                    at_bound(got.items[1]) and at_bound(got.items[3])
+                run.check(ok, 'BRANCH-TWIN.array', con, 'array T with the bound of two ranges' + tag,
+                          'for the temperatures [Td, T_mid, Tu, T_mid] (T_mid: the bound two ranges share) the result %s '
+                          'is not, element by element, %sthe bare polynomial of that element\'s range (either range on '
+                          'the bound) plus the sum over every attached model%s, once, at that element\'s temperature'
+                          % (show(got, 260), dimtxt, owntxt), owner.module, fn)
+                n += 2
+            if k == 1 or (k == 2 and q in QS and (thorough or phase is None)):
+                # temperatures outside the fitted range, above and below, as scalars and as array elements next to
+                # one inside: the species extrapolates the polynomial of the nearest range (or refuses: an exception
+                # is not a value) - the attached models count there as everywhere else.  k == 1: the species holds
+                # the model it was fitted to; k == 2: it holds none (the default)
+                held = 'that holds the model it was fitted to' if k == 1 else 'built with the default model=None'
+                Tx, Tn, T0 = D.sym('Tx'), D.sym('Tn'), D.sym('T0')
+                for Tv, hi_, where in ((Tx, True, 'above T_high'), (Tn, False, 'below T_low')):
+                    got = ask(I, o, 'get_' + q, dict({'T': Tv, 'P': P, 'x': x}, **extra))
+                    run.check(isinstance(got, Raised) or same(flat(got), want_at(Tv, hi_)), 'BRANCH-TWIN.scalar', con,
+                              'scalar T outside the fitted range' + tag,
+                              'value at a scalar temperature %s of a species %s is %s, expected %sthe bare polynomial '
+                              'plus the sum over every attached model at the same T and conditions%s'
+                              % (where, held, show(got, 200), dimtxt, owntxt), owner.module, fn)
+                    n += 1
+                arr = ListV([T0, Tx, Tn])
+                arr.is_array = True
+                got = ask(I, o, 'get_' + q, dict({'T': arr, 'P': P, 'x': x}, **extra))
+                ok = isinstance(got, Raised) or (isinstance(got, ListV) and len(got) == 3 and all(
+                    same(flat(g), want_at(t, h)) for g, t, h in zip(got.items, (T0, Tx, Tn), (False, True, False))))
+                run.check(ok, 'BRANCH-TWIN.array', con, 'array T reaching outside the fitted range' + tag,
+                          'for the temperatures [T0, Tx, Tn] (Tn < T_low < T0 < T_high < Tx) of a species %s the result '
+                          '%s is not, element by element, %sthe bare polynomial plus the sum over every attached '
+                          'model%s at that element\'s temperature' % (held, show(got, 260), dimtxt, owntxt),
+                          owner.module, fn)
+                n += 1
             if bad is not None:
                 run.fail('BRANCH-TWIN.array', con, 'array T' + tag,
                          'for an array of %d temperatures the result %s is not, element by element, %sthe bare '
@@ -457,7 +551,9 @@ def constructors(run, repo, thorough):
 PRESSURES = (Fr(1, 1000), Fr(1), Fr(1000008, 1000000), Fr(999992, 1000000), Fr(10), Fr(100))
 # species a coverage effect refers to: real adsorbates - one a prefix of another, one a part of both - and names that
 # touch the text of the "<name>_kwargs" key: ending in one of its letters, containing '_', containing the word itself
-NAME = {'B': 'CO', 'C': 'CO2', 'D': 'O', 'E': 'Ag', 'F': 'CO_s', 'H': 'kwargs_A'}
+# and the package's own spelling of adsorbates and sites: characters that are not letters, digits or '_'
+NAME = {'B': 'CO', 'C': 'CO2', 'D': 'O', 'E': 'Ag', 'F': 'CO_s', 'H': 'kwargs_A', 'I': 'CO(S)', 'J': 'O*', 'K': 'O-fcc',
+        'L': 'H2O(S)'}
 
 
 def real_models(run, repo, thorough=False):
@@ -516,7 +612,8 @@ def real_models(run, repo, thorough=False):
     # model must see its own species' coverage (conditions of one model must not leak into the next, a block must
     # not be lost because of the way its species is called)
     ORDERS = ((None, ('B', 'C')), ('S', ('C', 'B')), ('S', ('D', 'B', 'C')), (None, ('C', 'D', 'B')),
-              ('S', ('E',)), ('S', ('F', 'H')), (None, ('H', 'E', 'F')), ('S', ('F', 'B', 'H', 'E')))
+              ('S', ('E',)), ('S', ('F', 'H')), (None, ('H', 'E', 'F')), ('S', ('F', 'B', 'H', 'E')),
+              ('S', ('I',)), (None, ('J', 'I', 'B')), ('S', ('L', 'K', 'E', 'J')))
     for kind in ('Nasa', 'Nasa9', 'Shomate'):
         for phase, order_ in ORDERS:
             rk = dict(ranks(2))
@@ -538,15 +635,137 @@ def real_models(run, repo, thorough=False):
             got = I.call_method(o, 'get_HoRT', [], dict({'T': T, 'P': P}, **blocks))
             if isinstance(got, SumV):
                 got = got.scalar + got.elem if got.elem.iszero() else got
-            plain = all(j in 'BCD' for j in order_)
             run.check(same(got, want), 'REF.corrections', '%s.get_HoRT' % kind,
-                      'coverage effects of several species' if plain else 'coverage block of a species named like the key',
+                      'coverage effects of several species' if all(j in 'BCD' for j in order_) else
+                      'coverage block of a species named like an adsorbate' if any(j in 'IJKL' for j in order_) else
+                      'coverage block of a species named like the key',
                       'with coverage effects of species %s attached and each coverage given in its own '
                       '<name>_kwargs block the value is %s, expected polynomial + sum_j slope_j*x_j/RT'
                       % (','.join(NAME[j] for j in order_), show(got, 240)), owner.module, fn)
             run.check(all(sorted(b.d) == ['x'] for b in blocks.values()), 'EFFECT.caller-dict', '%s.get_HoRT' % kind,
                       'per-species blocks', 'a caller-supplied per-species dictionary was modified', owner.module, fn)
             n += 2
+    return n
+
+
+def histories(run, repo, thorough=False):
+    """one species asked again and again under other conditions (other coverage, other pressure, other per-species
+    blocks, an array that contains the temperature asked before), a second species of the same class in the same
+    interpreter asked with the very arguments of the call before, and the first question once more: every answer is
+    held to the reference of THAT call (real GasPressureAdj / PiecewiseCovEffect)"""
+    n = 0
+    cci = repo.cls('pmutt.mixture.cov.PiecewiseCovEffect')
+    gci = repo.cls(GPA)
+
+    def flat(v):
+        if isinstance(v, SumV):
+            return v.scalar + v.elem if v.elem.iszero() else v
+        return v
+
+    def run_history(kind, phase, I, sp, calls, key, desc, qs):
+        """sp: {tag: (object, coefficients, adjusted?, [(name_j, slope symbol)])}; calls: (tag, temperatures (a symbol or
+        a list), P, global x or None, {name_j: x} blocks or None, what differs from the calls before)"""
+        D = I.D
+        Rk = D.sym('kb') * D.sym('Na') * D.sym('U<kcal>')
+        cnt = 0
+
+        def want(tag, q, Tv, P, x, blocks):
+            o, co, adj, effects = sp[tag]
+            if q == 'GoRT':
+                return want(tag, 'HoRT', Tv, P, x, blocks) - want(tag, 'SoR', Tv, P, x, blocks)
+            v = bare(I, repo, kind, co, q, Tv)
+            if q == 'HoRT':
+                for name_j, slope in effects:
+                    xj = blocks[name_j] if blocks is not None and name_j in blocks else x if x is not None else C(0)
+                    v = v + slope * xj / (Rk * Tv)
+            if q == 'SoR' and adj:
+                v = v - D.ln(P)
+            return v
+        for q in qs:
+            for step, (tag, Ts, P, x, blocks, what) in enumerate(calls):
+                o = sp[tag][0]
+                owner, fn = repo.find_method(o.ci, 'get_' + q)
+                kw = {'T': Ts, 'P': P}
+                if isinstance(Ts, list):
+                    kw['T'] = ListV(list(Ts))
+                    kw['T'].is_array = True
+                if x is not None:
+                    kw['x'] = x
+                for name_j, xj in (blocks or {}).items():
+                    kw['%s_kwargs' % name_j] = DictV({'x': xj})
+                got = ask(I, o, 'get_' + q, kw)
+                if isinstance(Ts, list):
+                    ok = isinstance(got, ListV) and len(got) == len(Ts) and \
+                        all(same(flat(g), want(tag, q, t, P, x, blocks)) for g, t in zip(got.items, Ts))
+                else:
+                    ok = not isinstance(got, Raised) and same(flat(got), want(tag, q, Ts, P, x, blocks))
+                run.check(ok, 'REF.corrections', '%s.get_%s' % (kind, q), key,
+                          '%s, question %d of a series (%s): the value is %s, expected the polynomial plus the '
+                          'contribution of every attached model at the temperature and conditions of this question'
+                          % (desc, step + 1, what, show(got, 200)), owner.module, fn)
+                cnt += 1
+        return cnt
+
+    # (a) conditions given globally
+    CASES = (('G', 'cov'), (None, 'adj,cov')) + ((('S', 'cov,adj'), ('gas', 'adj,cov')) if thorough else ())
+    for kind in ('Nasa', 'Nasa9', 'Shomate'):
+        for ci_, (phase, form) in enumerate(CASES):
+            # quick: every getter on the first case, G (which asks H and S in turn) on the others
+            qs = ('HoRT', 'SoR', 'GoRT') if thorough or ci_ == 0 else ('GoRT',)
+            I = Interp(repo, order=RankOrder(dict(ranks(2), xcov=1, xcov2=2, b1=5, P=3, P2=4), const_ranks=True))
+            D = I.D
+            fr = Frame(I, repo.module('pmutt'), {}, None, None)
+            sp = {}
+            for tag in ('', '2'):
+                handed = [fr.apply(gci, [], {}, None) if t == 'adj' else
+                          fr.apply(cci, [], {'name_i': 'sp' + tag, 'name_j': 'B', 'intervals': ListV([C(0), D.sym('b1')]),
+                                             'slopes': ListV([D.sym('k0' + tag), D.sym('k1' + tag)])}, None)
+                          for t in form.split(',')]
+                o, co = species_obj(I, repo, kind, ListV(handed), phase, tag=tag)
+                sp[tag] = (o, co, True, [('B', D.sym('k0' + tag))])
+            T, T1, P, P2, x, x2 = (D.sym(s_) for s_ in ('T', 'T1', 'P', 'P2', 'xcov', 'xcov2'))
+            calls = (('', T, P, x, None, 'the first'),
+                     ('', T, P, x2, None, 'another coverage'),
+                     ('', T, P2, x2, None, 'another pressure'),
+                     ('2', T, P2, x2, None, 'another species of the same class, same arguments'),
+                     ('', [T1, T], P2, x, None, 'an array that ends with the temperature asked before, the first coverage'),
+                     ('', T, P, x, None, 'the first again'))
+            n += run_history(kind, phase, I, sp, calls, 'one species asked repeatedly under other conditions',
+                             'a %s species with a pressure adjustment and a coverage effect (misc_models=[%s])'
+                             % ({None: 'phase-less', 'S': 'surface'}.get(phase, 'gas'), form), qs)
+    # (b) coverages given through the per-species blocks
+    SETS = ((None, ('B', 'I')), ('S', ('L', 'D', 'C'))) + ((('s', ('J', 'F')), (None, ('E',))) if thorough else ())
+    for kind in ('Nasa', 'Nasa9', 'Shomate'):
+        for si_, (phase, names) in enumerate(SETS):
+            qs = ('HoRT', 'SoR', 'GoRT') if thorough else ('HoRT',) if si_ == 0 else ('GoRT',)
+            rk = dict(ranks(2), P=3)
+            for j in names:
+                rk.update({'x' + j: 1, 'y' + j: 2, 'b' + j: 5})
+            I = Interp(repo, order=RankOrder(rk, const_ranks=True))
+            D = I.D
+            fr = Frame(I, repo.module('pmutt'), {}, None, None)
+            sp = {}
+            for tag in ('', '2'):
+                covs = [fr.apply(cci, [], {'name_i': 'sp' + tag, 'name_j': NAME[j],
+                                           'intervals': ListV([C(0), D.sym('b' + j)]),
+                                           'slopes': ListV([D.sym('k0' + j + tag), D.sym('k1' + j + tag)])}, None)
+                        for j in names]
+                o, co = species_obj(I, repo, kind, ListV(covs), phase, tag=tag)
+                sp[tag] = (o, co, False, [(NAME[j], D.sym('k0' + j + tag)) for j in names])
+            T, T1, P = D.sym('T'), D.sym('T1'), D.sym('P')
+            bx = {NAME[j]: D.sym('x' + j) for j in names}
+            by = {NAME[j]: D.sym('y' + j) for j in names}
+            mixed = dict(by, **{NAME[names[0]]: D.sym('x' + names[0])})
+            calls = (('', T, P, None, bx, 'the first'),
+                     ('', T, P, None, by, 'other coverages in the blocks'),
+                     ('2', T, P, None, by, 'another species of the same class, same arguments'),
+                     ('', [T1, T], P, None, mixed, 'an array that ends with the temperature asked before, the first '
+                      'coverage for one species only'),
+                     ('', T, P, None, {}, 'no block at all: coverage 0'),
+                     ('', T, P, None, bx, 'the first again'))
+            n += run_history(kind, phase, I, sp, calls, 'one species asked repeatedly with other per-species blocks',
+                             'a %s species with coverage effects of %s, each coverage given in its own <name>_kwargs '
+                             'block' % ({None: 'phase-less'}.get(phase, 'surface'), ', '.join(NAME[j] for j in names)), qs)
     return n
 
 
@@ -696,12 +915,22 @@ def check(run, repo):
         'the bare polynomial plus the sum over all attached models evaluated at that element\'s temperature and the '
         'same conditions (a gas species adds its own - ln P to S); with two models also a scalar above T_mid and the '
         'array [Tu, Td, Tu] (unordered, one value twice, on both sides of T_mid: a NASA-7 species answers Tu from its '
-        'high-temperature coefficients); (b) with a real GasPressureAdj and a real PiecewiseCovEffect through the real '
+        'high-temperature coefficients), T_mid itself as a scalar and in [Td, T_mid, Tu, T_mid] (the NASA-9 species has '
+        'two segments that meet there; the polynomial of either range is accepted on the bound, the models count '
+        'once), and temperatures below T_low and above T_high as scalars and in [T0, Tx, Tn] (bare polynomial of the '
+        'nearest range plus the models, or an exception); the instance with one model is a species that was also '
+        'handed the model it was fitted to (model=, as from_model stores it), a catalyst site and n_sites=2; '
+        '(b) with a real GasPressureAdj and a real PiecewiseCovEffect through the real '
         'aggregation, for 9 combinations of phase and models handed over (adjustment ahead of / behind the coverage '
         'effect on a phase-less, a surface and a gas species; a gas species handed only the coverage effect, nothing, '
         'an empty list): S = poly - ln P, H = poly + coverage energy/RT, Cp unchanged, G = H - S; coverage effects of '
         '1-4 species each addressed through its own <name>_kwargs block, the species named CO, CO2, O (one a prefix of '
-        'another) and Ag, CO_s, kwargs_A (names that touch the text of the key). '
+        'another), Ag, CO_s, kwargs_A (names that touch the text of the key) and CO(S), O*, O-fcc, H2O(S) (the '
+        'package\'s spelling of adsorbates). '
+        '(c) Histories: one species is asked six times in a row - another coverage, another pressure, a second species '
+        'of the same class with the very same arguments, an array that ends with the temperature asked before, the '
+        'first question again - with the conditions given globally and through the per-species blocks (other '
+        'coverages, one block only, no block); every answer is held to the reference of that question. '
         'The getters with units (get_Cp/get_H/get_S/get_G, unit kJ/mol[/K]) are held to R[*T] times the same sum, '
         'scalar and array T, with two attached models. '
         'EmpiricalBase(...) is interpreted for 9 phase spellings x 12 forms of misc_models (none, empty, other '
@@ -725,6 +954,8 @@ def check(run, repo):
     run.floor('summation instances', n, 250)
     n = real_models(run, repo, thorough)
     run.floor('real-model instances', n, 150)
+    n = histories(run, repo, thorough)
+    run.floor('questions put to one species in a row', n, 100)
     n = attachment(run, repo)
     run.floor('attachment cases', n, 150)
     if ARM_SHARED_LIST:
@@ -761,6 +992,48 @@ _SCAN_LAST = ("                    has_P_adj = False\n"
               "                        has_P_adj = isinstance(misc_models[i], GasPressureAdj)\n"
               "                    if not has_P_adj:\n"
               "                        misc_models.append(GasPressureAdj())")
+_NASA_CP_DEF = ("\n\n" +
+                'def get_nasa_CpoR(a, T):\n' +
+                '    """Calculates the dimensionless heat capacity using NASA polynomial form\n' +
+                '\n' +
+                '    Parameters\n' +
+                '    ----------\n' +
+                '        a : (7,) `numpy.ndarray`_\n' +
+                '            Coefficients of NASA polynomial\n' +
+                '        T : float\n' +
+                '            Temperature in K\n' +
+                '    Returns\n' +
+                '    -------\n' +
+                '        CpoR: float\n' +
+                '            Dimensionless heat capacity\n' +
+                '\n' +
+                '    .. _`numpy.ndarray`: https://docs.scipy.org/doc/numpy/reference/generated/numpy.ndarray.html\n' +
+                '    """\n' +
+                '    T_arr = np.array([1., T, T**2, T**3, T**4, np.zeros_like(T),\n' +
+                '                      np.zeros_like(T)])\n' +
+                '    return np.dot(a, T_arr)\n')
+_NASA_H_ELSE = "        else:\n            a = self.get_a(T=T)\n            HoRT = get_nasa_HoRT(a=a, T=T) \\\n"
+_SHO_H = ("            HoRT[i] += np.sum(\n"
+          "                _get_mix_quantity(misc_models=self.misc_models,\n"
+          "                                  method_name='get_HoRT',\n"
+          "                                  raise_error=raise_error,\n"
+          "                                  raise_warning=raise_warning,\n"
+          "                                  default_value=0.,\n"
+          "                                  T=T_i,\n"
+          "                                  **kwargs))")
+_SHO_H_MEMO = ("            memo_key = %s\n"
+               "            try:\n                memo = self._mix_memo\n            except AttributeError:\n"
+               "                memo = self._mix_memo = {}\n"
+               "            if memo_key not in memo:\n"
+               "                memo[memo_key] = np.sum(\n"
+               "                    _get_mix_quantity(misc_models=self.misc_models,\n"
+               "                                      method_name='get_HoRT',\n"
+               "                                      raise_error=raise_error,\n"
+               "                                      raise_warning=raise_warning,\n"
+               "                                      default_value=0.,\n"
+               "                                      T=T_i,\n"
+               "                                      **kwargs))\n"
+               "            HoRT[i] += memo[memo_key]")
 MUTANTS = [
     {'name': 'revert aefd2c4: the pressure adjustment is appended to the list the caller handed over', 'expect': ('PATH.attach', '__init__'),
      'edits': [('pmutt/empirical/__init__.py', "                    # Work on a copy: the list belongs to the caller\n                    misc_models = list(misc_models)\n", "")]},
@@ -831,6 +1104,66 @@ MUTANTS = [
      'expect': ('BRANCH-TWIN.array', 'Nasa.get_SoR'),
      'edits': [(N_, "                a = self.get_a(T=T_i)\n                SoR[i]",
                 "                a = self.get_a(T=T[-1])\n                SoR[i]")]},
+    # --- instances added after the white-box review, round 3
+    {'name': 'Nasa.get_HoRT (scalar) answers from the model it was fitted to outside [T_low, T_high]: no corrections there',
+     'expect': ('BRANCH-TWIN.scalar', 'Nasa.get_HoRT'),
+     'edits': [(N_, _NASA_H_ELSE, "        elif self.model is not None and not (self.T_low <= T <= self.T_high):\n"
+                "            HoRT = self.model.get_HoRT(T=T)\n" + _NASA_H_ELSE)]},
+    {'name': 'Nasa.get_HoRT (array) answers from the model it was fitted to outside [T_low, T_high]',
+     'expect': ('BRANCH-TWIN.array', 'Nasa.get_HoRT'),
+     'edits': [(N_, "                a = self.get_a(T=T_i)\n                HoRT[i] = get_nasa_HoRT(a=a, T=T_i)",
+                "                if self.model is not None and not (self.T_low <= T_i <= self.T_high):\n"
+                "                    HoRT[i] = self.model.get_HoRT(T=T_i)\n                    continue\n"
+                "                a = self.get_a(T=T_i)\n                HoRT[i] = get_nasa_HoRT(a=a, T=T_i)")]},
+    {'name': 'Shomate.get_SoR leaves the corrections out for temperatures outside the fitted range (no model held)',
+     'expect': ('BRANCH-TWIN', 'Shomate.get_SoR'),
+     'edits': [(S_, "        for i, T_i in enumerate(T):\n            SoR[i] += np.sum(",
+                "        for i, T_i in enumerate(T):\n            if T_i < self.T_low or T_i > self.T_high:\n"
+                "                continue\n            SoR[i] += np.sum(")]},
+    {'name': 'Nasa9.get_HoRT array branch: segments in the outer loop, += (a temperature on a common bound counts twice)',
+     'expect': ('BRANCH-TWIN.array', 'Nasa9.get_HoRT'),
+     'edits': [(N_, "            for i, T_i in enumerate(T):\n                nasa = self._get_nasa(T=T_i)\n"
+                "                HoRT[i] = nasa.get_HoRT(T=T_i) \\\n                    + np.sum(_get_mix_quantity(\n"
+                "                                        misc_models=self.misc_models,\n"
+                "                                        method_name='get_HoRT',\n"
+                "                                        raise_error=raise_error,\n"
+                "                                        raise_warning=raise_warning,\n"
+                "                                        default_value=0.,\n"
+                "                                        T=T_i, **kwargs))",
+                "            for nasa in self.nasas:\n                for i, T_i in enumerate(T):\n"
+                "                    if T_i < nasa.T_low or T_i > nasa.T_high:\n                        continue\n"
+                "                    HoRT[i] += nasa.get_HoRT(T=T_i) \\\n                        + np.sum(_get_mix_quantity(\n"
+                "                                        misc_models=self.misc_models,\n"
+                "                                        method_name='get_HoRT',\n"
+                "                                        raise_error=raise_error,\n"
+                "                                        raise_warning=raise_warning,\n"
+                "                                        default_value=0.,\n"
+                "                                        T=T_i, **kwargs))")]},
+    {'name': 'Nasa.get_CpoR array branch: the corrections of an element on T_mid are added for both ranges',
+     'expect': ('BRANCH-TWIN.array', 'Nasa.get_CpoR'),
+     'edits': [(N_, "                CpoR[i] = get_nasa_CpoR(a=a, T=T_i) \\\n                    + np.sum(",
+                "                CpoR[i] = get_nasa_CpoR(a=a, T=T_i) \\\n"
+                "                    + (2 if T_i == self.T_mid else 1) * np.sum(")]},
+    {'name': 'Shomate.get_HoRT remembers the summed corrections per (T, P, x): the per-species blocks are not in the key',
+     'expect': ('REF.corrections', 'Shomate.get_HoRT'), 'edits': [(S_, _SHO_H, _SHO_H_MEMO % "(T_i, kwargs.get('P'), kwargs.get('x'))")]},
+    {'name': 'Shomate.get_HoRT remembers the summed corrections per (T, P): the coverage is not in the key',
+     'expect': ('REF.corrections', 'Shomate.get_HoRT'), 'edits': [(S_, _SHO_H, _SHO_H_MEMO % "(T_i, kwargs.get('P'))")]},
+    {'name': 'Shomate.get_HoRT remembers the summed corrections in a dictionary of the class (shared by all species)',
+     'expect': ('REF.corrections', 'Shomate.get_HoRT'),
+     'edits': [(S_, _SHO_H, (_SHO_H_MEMO % "(T_i, kwargs.get('P'), kwargs.get('x'), tuple((k_, v_.get('x')) for k_, v_ in "
+                             "sorted(kwargs.items()) if k_.endswith('_kwargs')))")
+                .replace("            try:\n                memo = self._mix_memo\n            except AttributeError:\n"
+                         "                memo = self._mix_memo = {}\n", "            memo = self._mix_memo\n")),
+               (S_, "    def get_CpoR(self, T, raise_error=True, raise_warning=True, **kwargs):",
+                "    _mix_memo = {}\n\n    def get_CpoR(self, T, raise_error=True, raise_warning=True, **kwargs):")]},
+    {'name': 'own per-species block recognised with re.fullmatch(r"(\\w+)_kwargs"): CO(S), O*, O-fcc never match',
+     'expect': ('REF.corrections', 'get_HoRT'),
+     'edits': [(P_, "            if key == '{}_kwargs'.format(specie_name):",
+                "            m_ = re.fullmatch(r'(\\w+)_kwargs', key)\n            if m_ and m_.group(1) == specie_name:")]},
+    {'name': 'own per-species block looked up after stripping everything from the first parenthesis',
+     'expect': ('REF.corrections', 'get_HoRT'),
+     'edits': [(P_, "            if key == '{}_kwargs'.format(specie_name):",
+                "            if key == '{}_kwargs'.format(str(specie_name).split('(')[0]):")]},
 ]
 EQUIV = [
     {'name': 'misc_models as a pass-through property of EmpiricalBase',
@@ -842,4 +1175,27 @@ EQUIV = [
      'edits': [(N_, "            CpoR = np.zeros(len(T))", "            CpoR = np.empty(len(T), dtype=np.double)", 0, 2)]},
     {'name': 'pressure adjustment spelled -ln(P/P0)',
      'edits': [(E_, "        return -np.log(P)", "        return -np.log(P / c.P0('bar'))")]},
+    # --- round 3
+    {'name': 'own per-species key spelled as an f-string',
+     'edits': [(P_, "            if key == '{}_kwargs'.format(specie_name):",
+                "            if key == f'{specie_name}_kwargs':")]},
+    {'name': 'get_nasa_CpoR defined in pmutt.empirical and imported into pmutt.empirical.nasa',
+     'edits': [(N_, _NASA_CP_DEF, ""),
+               (N_, "from pmutt.empirical import EmpiricalBase\n", "from pmutt.empirical import EmpiricalBase, get_nasa_CpoR\n"),
+               (E_, "class EmpiricalBase(_ModelBase):", _NASA_CP_DEF.lstrip('\n') + "\n\nclass EmpiricalBase(_ModelBase):")]},
+    {'name': 'Nasa9.get_HoRT array branch: the segment of every temperature looked up before the loop',
+     'edits': [(N_, "            for i, T_i in enumerate(T):\n                nasa = self._get_nasa(T=T_i)\n"
+                "                HoRT[i] = nasa.get_HoRT(T=T_i) \\\n",
+                "            segments = [self._get_nasa(T=T_i) for T_i in T]\n"
+                "            for i, (T_i, nasa) in enumerate(zip(T, segments)):\n"
+                "                HoRT[i] = nasa.get_HoRT(T=T_i) \\\n")]},
+    {'name': 'Shomate.get_HoRT: corrections of one call collected in a local dictionary keyed by the position',
+     'edits': [(S_, _SHO_H, "            mix = {}\n            mix[i] = np.sum(\n"
+                "                _get_mix_quantity(misc_models=self.misc_models,\n"
+                "                                  method_name='get_HoRT',\n"
+                "                                  raise_error=raise_error,\n"
+                "                                  raise_warning=raise_warning,\n"
+                "                                  default_value=0.,\n"
+                "                                  T=T_i,\n"
+                "                                  **kwargs))\n            HoRT[i] += mix[i]")]},
 ]
